@@ -25,6 +25,19 @@ impl Mode {
             panic!("Failed to encode any data. Possible programming error.");
         }
 
+        // Whether a packet fits depends on its content (number of cars, objects, hosts...), not
+        // only on the packet definition: refuse it before the length is divided and truncated.
+        if len > self.max_length() {
+            return Err(io::Error::new(
+                io::ErrorKind::InvalidInput,
+                format!(
+                    "packet of {} bytes exceeds the maximum of {} bytes",
+                    len,
+                    self.max_length()
+                ),
+            ));
+        }
+
         // the length passed must include the placeholder byte for the packet size!
         let n = match self {
             Mode::Uncompressed => len,
@@ -40,16 +53,6 @@ impl Mode {
                 }
             },
         };
-
-        if n > self.max_length() {
-            // probably a programming error. lets bail.
-            panic!(
-                "Provided length would overflow the maximum byte size of {}.
-                This is probably a programming error, or a change in the
-                packet definition.",
-                self.max_length()
-            );
-        }
 
         Ok(n as u8)
     }
